@@ -264,7 +264,9 @@ class DocActions(object):
     # Copy over all columns from the old table to the new.
     new_table = self._engine.tables[new_table_id]
     for new_column in new_table.all_columns.values():
-      if not new_column.is_private():
+      # The new table starts with its own helper columns (e.g. the '#lookup#' map every Table
+      # creates); the old table may have dropped its copy when the last formula using it went away.
+      if not new_column.is_private() and old_table.has_column(new_column.col_id):
         new_column.copy_from_column(old_table.get_column(new_column.col_id))
     new_table.grow_to_max()   # We need to bring formula columns to the right size too.
 
